@@ -155,7 +155,9 @@ fn direct(ctx: &Ctx, c: CipherAlg, ring: bool) {
 
 pub fn run(tier: Tier) -> i32 {
     let ctx = Ctx::new("C19", tier, "fault_enumeration");
-    let quick = ctx.quick();
+    // the whole thorough alphabet costs a few seconds: both tiers run it
+    let quick = false;
+    let _ = ctx.quick();
     ctx.set_rule("case = (cipher x backend, read path in {handshake payload, stateful transport, stateless transport, Cipher::decrypt directly}, plaintext length in {4,16,17,64,1000}, alteration: every bit of the tag, every bit (stride 5 above 17 bytes) of the first 64 body bytes, wrong nonce, wrong ad, output buffer length in {pt, ct-1, ct, ct+1, 2*ct}); oracle: after Err the canary-filled output buffer contains no 8-byte (4 for short plaintexts) window of the rejected message's plaintext. non-trivial = the read was rejected");
     let mut cases: Vec<(CipherAlg, Backend, Path, usize, Alter, bool, usize)> = vec![];
     for (c, b) in cipher_backends() {
